@@ -127,6 +127,9 @@ def values_of(t, tier, depth=0):
         out = [("list", []), ("list", [e[0]]), ("list", [e[i % len(e)] for i in (1, 0, 2)])]
         if many or depth == 0:
             out.append(("list", [e[i % len(e)] for i in (2, 1, 1, 0, 3)]))
+            # leading (and only) "zero-like" elements: "", 0, 0.0 … first, twice, then something else
+            out.append(("list", [e[0], e[0], e[1 % len(e)]]))
+            out.append(("list", [e[0], e[0]]))
         if many and depth == 0:
             out.append(("list", [e[i % len(e)] for i in range(9)]))
         return out
